@@ -900,6 +900,11 @@ def _interp_common(s1, s2, sampling, method, fill_value):
     s2_value : ndarray
 
     """
+    # the common grid is built in the wavelength unit of s1
+    if s2.waveunit != s1.waveunit:
+        s2 = s2.copy()
+        s2.to(s1.waveunit)
+
     # compute a common wavelength array that spans both spectrum and has the
     # desired sampling
     minwave = min(s1.wave.min(), s2.wave.min())
@@ -918,8 +923,10 @@ def _interp_common(s1, s2, sampling, method, fill_value):
     s2_wave = commonwave[s2_index]
 
     # sample each Spectrum at the requested sampling
-    s1_samplevalue = s1.sample(s1_wave, method=method, fill_value=fill_value)
-    s2_samplevalue = s2.sample(s2_wave, method=method, fill_value=fill_value)
+    s1_samplevalue = s1.sample(s1_wave, method=method, fill_value=fill_value,
+                               waveunit=s1.waveunit)
+    s2_samplevalue = s2.sample(s2_wave, method=method, fill_value=fill_value,
+                               waveunit=s2.waveunit)
 
     # create nominal value arrays
     s1_value = fill_value * np.ones(commonwave.shape)
